@@ -111,7 +111,10 @@ CHECKS.update({
         text=("SshPolicy!Errors transcribes the documented matching rules; TLC enumerates per field every (policy, peer) pair of the small universe (lists, optional host "
               "keys, strict marker, size maps, CA type/size precedence, flags), checks ShrinkKeepsPass, GrowKeepsPass, ExactImpliesSubset, LargerIsWeaker, UnspecifiedNeverFails "
               "on each and emits the expected mismatched fields; all pairs are replayed in-process against Policy.evaluate (fresh object each), a sample through -P in text and "
-              "JSON including the exit status."),
+              "JSON including the exit status. SshPolicyFile models the loader line by line (one Step per line, Finish for name/version): TLC enumerates files of line "
+              "tokens (both generations of size directives, flags, comments, refusing lines), checks CommentsAreInert, FirstErrorWins, IndependentLinesCommute, "
+              "NamedAndVersioned, FlagsOnlyRise and emits the loaded object; every file is written out, loaded by Policy(policy_data=..) and compared field by field, "
+              "a sample through -P (refused => error status and no connection)."),
         design='8 C06', note='TLC; policies are rendered as policy-file text by the harness; in-process peers are SSH2_Kex objects with recorded host keys/moduli', technique='exhaustive per-field TLC enumeration of (policy, peer) pairs replayed into Policy.evaluate and the CLI'),
 })
 
